@@ -373,6 +373,35 @@ func runC02(c *Ctx) {
 					rec.Violate("tbs-mismatch", fmt.Sprintf("sign/verify/constructed/pos=%d", j), fmt.Sprintf("verifier %d got %s\nreference %s", j, hexs(vspies[j].Last()), hexs(want)), input)
 				}
 			}
+			// a refused verification in between (external data left out, so a signer without alg cannot be
+			// judged) changes nothing: the next verification with the external data hands each verifier the
+			// very same structure again
+			if err == nil && len(ext) > 0 {
+				bodyBstr := refcbor.Encode(refcbor.NBstr(bc))
+				for j := 0; j < n; j++ {
+					sg := m.Signatures[j]
+					if _, aerr := sg.Headers.Protected.Algorithm(); aerr == nil {
+						continue
+					}
+					sc, _ := refcose.ProtectedContent(sg.Headers.Protected, gen.Custom)
+					want := refcose.SignatureStructure(bc, sc, ext, payload)
+					v0 := &mon.SpyVerifier{Alg: cose.Algorithm(-7 - j)}
+					var e0, e1 error
+					if guard(rec, "Signature.Verify(no external, no alg)", input, func() { e0 = sg.Verify(v0, bodyBstr, payload, nil) }) {
+						return
+					}
+					v1 := &mon.SpyVerifier{Alg: cose.Algorithm(-7 - j)}
+					if guard(rec, "Signature.Verify(after a refused one)", input, func() { e1 = sg.Verify(v1, bodyBstr, payload, ext) }) {
+						return
+					}
+					rec.Event("verify-after-refused-verify")
+					if e0 == nil || v0.Calls != 0 {
+						rec.Violate("tbs-mismatch", "sign/verify/constructed/no-alg-no-external", fmt.Sprintf("a signer without alg verified without external data: err=%v, verifier calls=%d, content %s", e0, v0.Calls, hexs(v0.Last())), input)
+					} else if e1 != nil || v1.Calls != 1 || !eqBytes(v1.Last(), want) {
+						rec.Violate("tbs-mismatch", "sign/verify/constructed/after-refused", fmt.Sprintf("after a refused verification the verifier (calls=%d, err=%v) got %s\nreference %s", v1.Calls, e1, hexs(v1.Last()), hexs(want)), input)
+					}
+				}
+			}
 			// stand-alone Signature.Sign with the body protected bstr handed over with a wide head
 			wprot := refcbor.NBstr(bc)
 			wprot.Width = refcbor.FitWidth(uint64(len(bc)), gen.HeadWidths[i%5])
@@ -440,6 +469,81 @@ func runC02(c *Ctx) {
 		}
 		rec.Sample("sign-decoded", map[string]any{"wire": hexs(b), "tbs0": hexs(wm.TBS(0, ext, payload))})
 	})
+
+	// ---- (c+) signers kept from one received message while the same variable receives the next one:
+	// each kept signer is still verified over the bytes of ITS message ----
+	mon.Parallel(c.Workers, c.N(300, 6000), func(w, i int) {
+		r := mon.NewRand(uint64(c.Seed)).Sub(uint64(5700000 + i))
+		ext := gen.External(r)
+		mk := func(n int, tagByte byte) (*gen.WSign, []byte) {
+			payload := append([]byte{tagByte}, gen.Payload(r, false)...)
+			wm := &gen.WSign{L: gen.RandLayer(r, gen.LayerOpts{MaxProt: 3, MaxUnprot: 2, ScramblePct: 40}), Payload: payload}
+			wm.L.ProtWidth = gen.HeadWidths[(i+int(tagByte))%5]
+			for j := 0; j < n; j++ {
+				a := int64(-7)
+				sl := gen.RandLayer(r, gen.LayerOpts{Alg: &a, MaxProt: 3, MaxUnprot: 2, ScramblePct: 40})
+				sl.ProtWidth = gen.HeadWidths[(i+j)%5]
+				wm.Sigs = append(wm.Sigs, &gen.WSignature{L: sl, Sig: mon.FixedSig})
+			}
+			return wm, payload
+		}
+		nA, nB := 1+i%4, 1+(i/4)%5
+		wa, pa := mk(nA, 'A')
+		wb, pb := mk(nB, 'B')
+		ba, bb := wa.Bytes(), wb.Bytes()
+		input := map[string]any{"case": i, "family": "kept signers", "first": mon.FullHex(ba), "second": mon.FullHex(bb), "external": ext}
+		var m cose.SignMessage
+		var err error
+		if guard(rec, "SignMessage.UnmarshalCBOR", input, func() { err = m.UnmarshalCBOR(ba) }) || err != nil {
+			return
+		}
+		keptBody, berr := m.Headers.MarshalProtected()
+		keptPayload := m.Payload
+		keptSigs := m.Signatures
+		if berr != nil {
+			return
+		}
+		third := ba
+		if guard(rec, "SignMessage.UnmarshalCBOR(second)", input, func() {
+			err = m.UnmarshalCBOR(bb)
+			if err == nil && i%3 == 0 {
+				err = m.UnmarshalCBOR(third)
+			}
+		}) || err != nil {
+			return
+		}
+		rec.Eval(1)
+		rec.Event("kept-signers-verified-after-next-decode")
+		rec.Class(fmt.Sprintf("kept-signers/first=%d/second=%d/third=%v", nA, nB, i%3 == 0))
+		for j, sg := range keptSigs {
+			v := &mon.SpyVerifier{Alg: cose.AlgorithmES256}
+			if guard(rec, "Signature.Verify(kept)", input, func() { err = sg.Verify(v, keptBody, keptPayload, ext) }) {
+				return
+			}
+			want := wa.TBS(j, ext, pa)
+			if err != nil || v.Calls != 1 || !eqBytes(v.Last(), want) {
+				rec.Violate("tbs-mismatch", "sign/verify/kept-signer", fmt.Sprintf("signer %d kept from the first message, verified after the variable received the next one (err=%v, calls=%d): verifier got %s\nreference %s", j, err, v.Calls, hexs(v.Last()), hexs(want)), input)
+				return
+			}
+		}
+		// ... and the variable itself now holds the last message
+		last, lp := wb, pb
+		if i%3 == 0 {
+			last, lp = wa, pa
+		}
+		for j, sg := range m.Signatures {
+			v := &mon.SpyVerifier{Alg: cose.AlgorithmES256}
+			body, _ := m.Headers.MarshalProtected()
+			if guard(rec, "Signature.Verify(current)", input, func() { err = sg.Verify(v, body, m.Payload, ext) }) {
+				return
+			}
+			if want := last.TBS(j, ext, lp); err != nil || v.Calls != 1 || !eqBytes(v.Last(), want) {
+				rec.Violate("tbs-mismatch", "sign/verify/current-signer", fmt.Sprintf("signer %d of the message decoded last: verifier got %s\nreference %s", j, hexs(v.Last()), hexs(want)), input)
+				return
+			}
+		}
+	})
+	rec.Require("kept-signers-verified-after-next-decode", 100)
 
 	// ---- (d) very large payload / external data with every head width of the protected bstr ----
 	// (sizes where an implementation might switch to a streaming or chunked construction)
@@ -868,9 +972,15 @@ func runC02(c *Ctx) {
 			{"zero-value", func() cose.Headers { return cose.Headers{} }},
 			{"nil-protected", func() cose.Headers { return cose.Headers{Unprotected: cose.UnprotectedHeader{int64(4): []byte("k")}} }},
 			{"nil-unprotected", func() cose.Headers { return cose.Headers{Protected: cose.ProtectedHeader{int64(3): "a/b"}} }},
-			{"empty-maps", func() cose.Headers { return cose.Headers{Protected: cose.ProtectedHeader{}, Unprotected: cose.UnprotectedHeader{}} }},
-			{"alg-given", func() cose.Headers { return cose.Headers{Protected: cose.ProtectedHeader{int64(1): cose.AlgorithmES256}} }},
-			{"alg-in-unprotected-only", func() cose.Headers { return cose.Headers{Unprotected: cose.UnprotectedHeader{int64(1): cose.AlgorithmES256}} }},
+			{"empty-maps", func() cose.Headers {
+				return cose.Headers{Protected: cose.ProtectedHeader{}, Unprotected: cose.UnprotectedHeader{}}
+			}},
+			{"alg-given", func() cose.Headers {
+				return cose.Headers{Protected: cose.ProtectedHeader{int64(1): cose.AlgorithmES256}}
+			}},
+			{"alg-in-unprotected-only", func() cose.Headers {
+				return cose.Headers{Unprotected: cose.UnprotectedHeader{int64(1): cose.AlgorithmES256}}
+			}},
 		}
 		for _, h := range hvs {
 			for _, ext := range [][]byte{nil, {}, []byte("ext")} {
